@@ -6,6 +6,7 @@ import (
 	cose "github.com/veraison/go-cose"
 
 	"verif/refcbor"
+	"verif/refcose"
 	"verif/tape"
 )
 
@@ -69,8 +70,9 @@ func scenarioC06(r *Run) {
 	fm := GenFaultMix(t)
 	ent := NewEntropy(uint64(t.U32("entropy.seed")))
 	var input []byte
+	var forcedKey *KeyPair
 	kind := ""
-	switch t.Pick([]int{240, 200, 40, 80, 3}, "c06.inputkind") {
+	switch t.Pick([]int{240, 200, 40, 80, 12}, "c06.inputkind") {
 	case 0:
 		to := TrafficOpts{Spec: SpecOpts{MaxExtra: 3, MaxSigner: 3, Cheap: true}, CsigDepth: 2, Abbrev: true, ForeignPct: 40, Detach: true}
 		b, victim := r.damagedInput(t, fm, ent, to, 3)
@@ -141,10 +143,28 @@ func scenarioC06(r *Run) {
 		}
 		input = env
 		r.Op("ENVELOPE", "key=%s", k.Name)
-		for i, nf := 0, 1+t.Choose(3, "c06.env.nfaults"); i < nf; i++ {
-			if out, kd := fm.WireFault(t, input); kd != "" {
-				input = out
-				r.Fired(kd)
+		if t.Bool(1, 3, "c06.env.byzantine") {
+			// an envelope from a byzantine issuer: validly signed, verified below
+			// with the right key, so that everything VerifyHashEnvelope does
+			// AFTER the signature check is reached - with a hash algorithm at
+			// the far ends of the integer range, an odd digest length
+			a := k.Alg
+			layer := envelopeSafe(genLayer(t, LayerOpts{MaxExtra: 2, Alg: &a}))
+			has := []int64{-1 << 63, 1<<63 - 1, -1<<63 + 1, -1 << 31, -1<<31 - 1, -1 << 32, 1 << 32, -16, -43, -44, -45, 0, -1, -256, -257, -65536, -65537, 24, -24, -25}
+			layer.Prot = append(removeLabel(layer.Prot, 258), KV{refcbor.Int(258), refcbor.Int(has[t.Choose(len(has), "c06.env.byz.hash")])})
+			if t.Bool(1, 3, "c06.env.byz.ct") {
+				layer.Prot = append(removeLabel(layer.Prot, 259), KV{refcbor.Int(259), genContentType(t)})
+			}
+			spec := &MsgSpec{Kind: refcose.KSign1Tagged, Layer: dedupLayer(layer), Payload: t.Bytes([]int{0, 1, 20, 32, 48, 64, 65}[t.Choose(7, "c06.env.byz.len")], "c06.env.byz.digest"), Key: k}
+			input = r.ForeignWire(t, spec, genKnobs(t), ent, false, 0, false).B
+			forcedKey = k
+			r.Fired("issuer.byzantine-envelope-validly-signed")
+		} else {
+			for i, nf := 0, 1+t.Choose(3, "c06.env.nfaults"); i < nf; i++ {
+				if out, kd := fm.WireFault(t, input); kd != "" {
+					input = out
+					r.Fired(kd)
+				}
 			}
 		}
 		kind = "envelope"
@@ -153,6 +173,9 @@ func scenarioC06(r *Run) {
 	r.Logf("input %x", input)
 
 	vk := pickCheapKey(t)
+	if forcedKey != nil {
+		vk = forcedKey
+	}
 	verifier := r.verifierFor(vk, false)
 	signer := r.signerFor(vk, false)
 	accepted := 0
